@@ -69,6 +69,27 @@ func genEnv(r *Run) *Env {
 		{Kind: "strs", Name: "lst", Val: e.List},
 	}
 	r.Rng.Shuffle(len(e.Ops), func(i, j int) { e.Ops[i], e.Ops[j] = e.Ops[j], e.Ops[i] })
+	// earlier assignments of the same names through OTHER setters (every final value above overwrites one):
+	// a setter that leaves a stale representation behind shows as the old value
+	if r.Rng.Intn(3) == 0 {
+		var pre []SOp
+		for _, nm := range []string{"bs", "bv", "ss", "si", "sy", "cn"} {
+			if r.Rng.Intn(2) == 0 {
+				continue
+			}
+			switch r.Rng.Intn(4) {
+			case 0:
+				pre = append(pre, SOp{Kind: "static", Name: nm, Val: int64(15)})
+			case 1:
+				pre = append(pre, SOp{Kind: "static", Name: nm, Val: "Draft"})
+			case 2:
+				pre = append(pre, SOp{Kind: "bytes", Name: nm, Val: []byte("old")})
+			default:
+				pre = append(pre, SOp{Kind: "string", Name: nm, Val: "older"})
+			}
+		}
+		e.Ops = append(pre, e.Ops...)
+	}
 	bk := func(s string) kind {
 		if s == "" {
 			return kMissing
@@ -124,6 +145,7 @@ type GenCfg struct {
 	BreakN    bool
 	LazyBreak bool
 	BuiltinOnly bool // no harness-registered modifiers / helpers (they allocate)
+	NoRaw       bool // no |raw prints (values that bypass the bound tags)
 }
 
 type gen struct {
@@ -277,8 +299,10 @@ func (g *gen) cond() Cond {
 				return Cond{L: p.Path, Op: op, R: q.Path}
 			}
 		case 5:
+			// (operator-less conditions `if !x` / `if x` are not part of the grammar: reCondExpr requires an
+			// operator; they parse to an empty, always-false condition — not generated)
 			if p.K == kBool {
-				return Cond{L: p.Path, Not: true}
+				return Cond{L: p.Path, Op: pick(g.r, []string{"==", "!="}), R: pick(g.r, []string{"true", "false"})}
 			}
 		default:
 			lit, ok := g.literalFor(p)
@@ -367,7 +391,7 @@ func (g *gen) print() TNode {
 	if g.cfg.PreSuf && g.r.Rng.Intn(4) == 0 {
 		p.Suf, p.SufKW = pick(g.r, []string{"</li>", "]", ";"}), pick(g.r, []string{"suffix", "sfx"})
 	}
-	if g.cfg.Region && g.r.Rng.Intn(6) == 0 {
+	if g.cfg.Region && !g.cfg.NoRaw && g.r.Rng.Intn(6) == 0 {
 		p.Raw = true
 	}
 	return p
@@ -396,6 +420,12 @@ func (g *gen) node(depth int) TNode {
 				n := If{C: g.cond(), Then: g.block(depth + 1), HasElse: g.r.Rng.Intn(2) == 0}
 				if n.HasElse {
 					n.Else = g.block(depth + 1)
+					switch g.r.Rng.Intn(10) {
+					case 0:
+						n.Then = nil // {% if c %}{% else %}…{% endif %}
+					case 1:
+						n.Else = nil
+					}
 				}
 				return n
 			}
@@ -444,7 +474,19 @@ func (g *gen) node(depth int) TNode {
 				q := g.anyPath()
 				cd := g.cond()
 				if cd.Hlp == "" && !cd.Not {
-					return Ternary{C: cd, T: p.Path, F: q.Path, Letters: g.letters()}
+					t := Ternary{C: cd, T: p.Path, F: q.Path, Letters: g.letters()}
+					// the raw flag belongs to ONE alternative (parser oracle: each keeps its own)
+					rawPick := g.r.Rng.Intn(8)
+					if c.NoRaw {
+						rawPick = 7
+					}
+					switch rawPick {
+					case 0:
+						t.T += "|raw"
+					case 1:
+						t.F += "|raw"
+					}
+					return t
 				}
 			}
 		}
@@ -457,6 +499,7 @@ func (g *gen) cloop(depth int) TNode {
 	up := g.r.Rng.Intn(3) > 0
 	trips := pick(g.r, []int{0, 1, 2, 3, 5})
 	start := g.r.Rng.Intn(3)
+	neg := g.r.Rng.Intn(5) == 0 // negative literal bound (the initial value must match \w+: never negative)
 	l := CLoop{Var: v, Init: strconv.Itoa(start)}
 	if up {
 		l.Step = "++"
@@ -465,13 +508,18 @@ func (g *gen) cloop(depth int) TNode {
 		if l.Op == "<=" {
 			lim--
 		}
-		if lim < 0 {
-			l.Op, lim = "<", start
+		if neg {
+			// no trip at all: the bound is below the start
+			trips = 0
+			l.Op = pick(g.r, []string{"<", "<="})
+			lim = -(1 + g.r.Rng.Intn(3))
 		}
 		l.Lim = strconv.Itoa(lim)
 	} else {
 		l.Step = "--"
-		start += trips + 2
+		if !neg {
+			start += trips + 2
+		}
 		l.Init = strconv.Itoa(start)
 		l.Op = pick(g.r, []string{">", ">=", "!="})
 		lim := start - trips
@@ -487,11 +535,11 @@ func (g *gen) cloop(depth int) TNode {
 	g.cvars = append(g.cvars, v)
 	sv := g.extra
 	g.extra = append(append([]tpath(nil), g.extra...), tpath{Path: v, K: kInt, Val: int64(start)})
-	if up && g.env.NHist > 0 && start+trips <= g.env.NHist {
+	if up && start >= 0 && g.env.NHist > 0 && start+trips <= g.env.NHist {
 		g.extra = append(g.extra, tpath{Path: "user.Finance.History[" + v + "].Cost", K: kFloat, Val: g.env.User.History[0].Cost},
 			tpath{Path: "user.Finance.History[" + v + "].Comment", K: kBytes, Val: g.env.User.History[0].Comment})
 	}
-	if up && len(g.env.List) > 0 && start+trips <= len(g.env.List) {
+	if up && start >= 0 && len(g.env.List) > 0 && start+trips <= len(g.env.List) {
 		g.extra = append(g.extra, tpath{Path: "lst[" + v + "]", K: kStr, Val: g.env.List[0]})
 	}
 	l.Body = g.block(depth + 1)
@@ -606,12 +654,19 @@ func (g *gen) sw(depth int) TNode {
 	if g.r.Rng.Intn(2) == 0 {
 		s.HasDefault = true
 		s.Default = g.block(depth + 1)
+		s.DefaultAt = len(s.Cases)
+		if g.r.Rng.Intn(3) == 0 {
+			s.DefaultAt = g.r.Rng.Intn(len(s.Cases) + 1) // {% default %} before some of the cases
+		}
 	}
 	return s
 }
 
 func (g *gen) ctxset() TNode {
 	n := CtxSet{Var: pick(g.r, []string{"x1", "x2", "si", "bv"}), KW: pick(g.r, []string{"ctx", "context"})}
+	if len(g.cvars) > 0 && !g.cfg.BuiltinOnly && g.r.Rng.Intn(6) == 0 {
+		n.Var = g.cvars[g.r.Rng.Intn(len(g.cvars))] // assignment to a counter-loop variable inside its body
+	}
 	if g.cfg.BuiltinOnly {
 		// keep the declared kinds of si / bv: an ill-typed comparison makes strconv allocate its error
 		n.Var = pick(g.r, []string{"x1", "x2"})
@@ -675,6 +730,7 @@ func (g *gen) include(depth int) TNode {
 	idx := len(g.incl) - 1
 	body := g.block(depth + 1)
 	g.incl[idx].Src = Source(body)
+	g.incl[idx].Ast = append([]TNode{}, body...) // parser oracle (asttie.go)
 	g.incl[idx].KeepFmt = true
 	g.loops, g.cvars, g.noCtlNow, g.inIncl = sl, sc, sn, si
 	n := Include{Dot: g.r.Rng.Intn(3) == 0}
@@ -682,6 +738,15 @@ func (g *gen) include(depth int) TNode {
 		n.Names = append(n.Names, "missingTpl")
 	}
 	n.Names = append(n.Names, key)
+	if idx > 0 && g.r.Rng.Intn(3) == 0 {
+		// a second REGISTERED name, before or after: the first registered name of the list wins
+		other := g.incl[g.r.Rng.Intn(idx)].Key
+		if g.r.Rng.Intn(2) == 0 {
+			n.Names = append(n.Names, other)
+		} else {
+			n.Names = append([]string{other}, n.Names...)
+		}
+	}
 	if g.r.Rng.Intn(8) == 0 {
 		n.Names = []string{"missingTpl"}
 	}
@@ -696,7 +761,7 @@ func genCase(r *Run, cfg GenCfg) (*RCase, []TNode) {
 	for _, t := range g.incl {
 		c.Tpls = append(c.Tpls, t)
 	}
-	c.Tpls = append(c.Tpls, TplDef{Key: "main", Src: Source(body), KeepFmt: !cfg.Newlines || r.Rng.Intn(2) == 0})
+	c.Tpls = append(c.Tpls, TplDef{Key: "main", Src: Source(body), KeepFmt: !cfg.Newlines || r.Rng.Intn(2) == 0, Ast: append([]TNode{}, body...)})
 	c.Ops = append(c.Ops, g.env.Ops...)
 	c.Ops = append(c.Ops, SOp{Kind: "render", Key: "main"})
 	return c, body
